@@ -54,6 +54,7 @@ def gen_program(r, idx):
     return dict(npos=npos, ndef=ndef, varargs=varargs, nkw=nkw, kwdef=kwdef, varkw=varkw, kind=kind,
                 defaults=defaults, kwdefaults=kwdefaults,
                 nposonly=r.choice([0, 0, 0, 0, 1, 2]),     # leading positional-only parameters (`def f(x, y, /, z)`), capped at npos
+                args_attr=r.random() < 0.3,      # a callable instance with an attribute `args` of its own (it is not a functools.partial)
                 named_inst=r.random() < 0.3,     # a callable instance that carries a __name__ (as after functools.update_wrapper)
                 falsy=r.random() < 0.3,     # the instance (methods, callable instances) is falsy: `bool(inst)` is False
                 p_npos=r.choice([0, 1, 1, 2]), p_kw=r.random() < 0.5, p_kwname=r.choice(PNAMES + KWONLY + ['q']),
@@ -109,6 +110,8 @@ def build_callable(prog):
         exec(src, ns)
         getattr(ns['C'], meth).__probe__ = ns['probe']
         inst = ns['C']()
+        if kind == 'callable' and prog.get('args_attr'):
+            inst.args = ('zz', 3); src += '# inst.args = ("zz", 3)\n'
         if kind == 'callable' and prog.get('named_inst'):
             inst.__name__ = 'target'; src += '# inst.__name__ = "target"\n'
         if kind in ('method', 'partial_method'): f = inst.target
@@ -154,6 +157,8 @@ def gen_ignore(r, prog):
 
 def gen_call(r, prog, malformed=False):
     nfree = prog['npos'] + (1 if prog['kind'] == 'unbound' else 0)
+    if prog['npos'] == 0 and prog['nkw'] == 0 and prog['varargs'] and prog['kind'] in ('func', 'wrapped') and r.random() < 0.5:
+        return [r.choice(POOL)], {}          # one positional, nothing named: the flat key is the bare value (1-tuple unwrapping)
     na = r.choice([nfree, nfree, max(0, nfree - 1), max(0, nfree - 2), nfree + 1, nfree + 2, 0, 1])
     pool = CALL_POOL + (UNHASHABLE if malformed else [])
     args = [r.choice(pool) for _ in range(na)]
@@ -242,6 +247,7 @@ def canonical_binding(sig, ba):
 KEYMAPS = [
     ('raw', dict()), ('raw', dict(typed=True)), ('raw', dict(sentinel=True)), ('raw', dict(flat=False)), ('raw', dict(flat=False, typed=True)),
     ('string', dict()), ('string', dict(typed=True)), ('string', dict(flat=False)), ('string', dict(sentinel=True, typed=True)),
+    ('md5', dict(sentinel=True)), ('string', dict(sentinel=True)), ('pickle', dict(sentinel=True)),
     ('pickle', dict()), ('pickle', dict(flat=False, typed=True)), ('md5', dict()), ('md5', dict(typed=True, sentinel=True)), ('sha1', dict(flat=False)),
     # chained keymaps `inner + outer` (the options outside `_inner` are the OUTER keymap's, which builds the first structured key)
     ('chain', dict(typed=True, _outer_kind='md5', _inner=['string', {}])),
